@@ -393,6 +393,7 @@ func c15Units(tier string) []*Unit {
 	for _, f := range c15Alphabet {
 		us = append(us, c15Unit(f, tier))
 	}
+	us = append(us, c15IncludeAliasUnit())
 	// suggestion on longer plain names
 	us = append(us, &Unit{Name: "suggestions", Weight: 1, Custom: func(u *Unit, dir string, deadline time.Time) *vlab.UnitResult {
 		res := &vlab.UnitResult{SigCounts: map[string]int{}, Extra: map[string]any{}}
@@ -443,4 +444,89 @@ func c15Units(tier string) []*Unit {
 		return res
 	}})
 	return us
+}
+
+// Aliases across includes: an include's own aliases stand for its whole namespace at any depth;
+// a task's aliases are namespaced per merged copy when one Taskfile is included twice.
+func c15IncludeAliasUnit() *Unit {
+	name := "resolve/include-aliases"
+	return &Unit{Name: name, Weight: 1, Custom: func(u *Unit, dir string, deadline time.Time) *vlab.UnitResult {
+		res := &vlab.UnitResult{SigCounts: map[string]int{}, Extra: map[string]any{}}
+		ran := func(full string) string {
+			return "    cmds:\n      - " + vlabQ("printf '%s\\n' "+shQ("RAN~~"+full+"~~")) + "\n"
+		}
+		type rq struct {
+			req  string
+			task string // "" = error expected
+			code int
+		}
+		type tc struct {
+			label string
+			files map[string]string
+			reqs  []rq
+		}
+		cases := []tc{
+			{"include-alias-over-nested-include", map[string]string{
+				"Taskfile.yml": "version: '3'\nincludes:\n  a:\n    taskfile: ./a.yml\n    aliases: [x]\n",
+				"a.yml":        "version: '3'\nincludes:\n  b: ./b.yml\ntasks:\n  t:\n" + ran("a:t") + "  only-a:\n" + ran("a:only-a"),
+				"b.yml":        "version: '3'\ntasks:\n  t:\n" + ran("a:b:t") + "  u:\n    aliases: [uu]\n" + ran("a:b:u"),
+			}, []rq{{"a:t", "a:t", 0}, {"x:t", "a:t", 0}, {"a:b:t", "a:b:t", 0}, {"x:b:t", "a:b:t", 0}, {"x:b:u", "a:b:u", 0}, {"a:b:uu", "a:b:u", 0}, {"x:only-a", "a:only-a", 0}, {"x:u", "", 200}, {"b:t", "", 200}}},
+			{"same-file-twice-task-aliases", map[string]string{
+				"Taskfile.yml": "version: '3'\nincludes:\n  one: ./s.yml\n  two: ./s.yml\n",
+				"s.yml":        "version: '3'\ntasks:\n  build:\n    aliases: [b, bb]\n" + ran("{{.TASK}}"),
+			}, []rq{{"one:build", "one:build", 0}, {"two:build", "two:build", 0}, {"one:b", "one:build", 0}, {"two:b", "two:build", 0}, {"one:bb", "one:build", 0}, {"two:bb", "two:build", 0}, {"b", "", 200}, {"two:one:b", "", 200}}},
+			{"same-file-under-two-parents-task-aliases", map[string]string{
+				"Taskfile.yml": "version: '3'\nincludes:\n  l: ./l.yml\n  r: ./r.yml\n",
+				"l.yml":        "version: '3'\nincludes:\n  s: ./s.yml\n",
+				"r.yml":        "version: '3'\nincludes:\n  s: ./s.yml\n",
+				"s.yml":        "version: '3'\ntasks:\n  build:\n    aliases: [b]\n" + ran("{{.TASK}}"),
+			}, []rq{{"l:s:b", "l:s:build", 0}, {"r:s:b", "r:s:build", 0}, {"l:s:build", "l:s:build", 0}, {"r:s:build", "r:s:build", 0}}},
+		}
+		n := 0
+		var samples []any
+		for _, c := range cases {
+			os.RemoveAll(dir)
+			os.MkdirAll(dir, 0o755)
+			for rel, content := range c.files {
+				os.WriteFile(filepath.Join(dir, rel), []byte(content), 0o644)
+			}
+			for _, r := range c.reqs {
+				out, err, pan := runResolve(dir, r.req)
+				n++
+				code := vlab.ExitCode(err, false)
+				got := ""
+				if strings.HasPrefix(out, "RAN~~") {
+					got = strings.SplitN(strings.TrimRight(out, "\n"), "~~", 3)[1]
+				}
+				if len(samples) < 3 {
+					samples = append(samples, map[string]any{"case": c.label, "request": r.req, "ran": got, "status": code})
+				}
+				bad := ""
+				switch {
+				case pan != "":
+					bad = "panic " + firstN(pan, 100)
+				case r.task != "" && (code != 0 || got != r.task):
+					bad = fmt.Sprintf("ran %q with status %d (%v), expected task %q", got, code, err, r.task)
+				case r.task == "" && (code != r.code || got != ""):
+					bad = fmt.Sprintf("ran %q with status %d, expected error %d and nothing run", got, code, r.code)
+				}
+				if bad != "" {
+					clause := "wrong_task"
+					if r.task == "" || code != 0 {
+						clause = "wrong_error"
+					}
+					v := vlab.V("C15", clause, "include_aliases:"+c.label, fmt.Sprintf("%s, request %q: %s", c.label, r.req, bad))
+					v.Scenario = name
+					v.Input = map[string]any{"files": c.files, "request": r.req}
+					res.SigCounts[v.Sig]++
+					if res.SigCounts[v.Sig] == 1 {
+						res.Violations = append(res.Violations, v)
+					}
+				}
+			}
+		}
+		res.Extra["samples"] = samples
+		res.Stats = vlab.Stats{Scenario: name, Execs: n, States: n, Transitions: n, Outcomes: 2, Exhaustive: true}
+		return res
+	}}
 }
